@@ -78,6 +78,9 @@ class StorageReplayer:
             if create:
                 shutil.rmtree(self.dir, ignore_errors=True)
                 os.makedirs(self.dir)
+            if 'fault_k' in self.opts:
+                from .. import faultfs
+                faultfs.reset(self.dir)
             self.st = FileStorage(self.path, **self.opts.get('fs_kw', {}))
         else:
             from ZODB.MappingStorage import MappingStorage
@@ -152,6 +155,20 @@ class StorageReplayer:
             elif action == 'Vote':
                 r = st.tpc_vote(self.t)
                 extra['oids'] = frozenset(u64(x) for x in (r or ()))
+            elif action == 'VoteFail':
+                from .. import faultfs
+                k = self.opts.get('fault_k', 0)
+                faultfs.S.fail_filter = lambda e: e.get('file') == 'Data.fs' and e['op'] in ('write', 'truncate')
+                faultfs.S.fail_kind = self.opts.get('fault_kind', 'error')
+                faultfs.S.fail_persist = bool(self.opts.get('fault_persist'))
+                faultfs.S.counted = 0
+                faultfs.S.failed = 0
+                faultfs.S.fail_at = k
+                try:
+                    st.tpc_vote(self.t)
+                finally:
+                    self.fault_hit = faultfs.S.failed
+                    faultfs.S.fail_at = None
             elif action == 'Finish':
                 tid = st.tpc_finish(self.t)
                 extra['tid'] = self.tids.model(tid)
@@ -206,6 +223,8 @@ class StorageReplayer:
             got = type(ex).__name__
         except _Blocked:
             got = 'BLOCKED (call did not return within the step timeout)'
+        except OSError as ex:
+            got = 'OSError'
         except Exception as ex:            # anything else the real call raises is an outcome, not a crash
             got = type(ex).__name__
             self.last_exc = repr(ex)[:200]
@@ -429,6 +448,9 @@ def replay_behaviour(job):
             mm = rp.step(a, step['args'], step['state'])
             what = 'outcome'
             ltid = step['state'].get('ltid')
+            if a == 'VoteFail' and mm and not getattr(rp, 'fault_hit', 0):
+                result['fault_not_reached'] = True      # the vote issued fewer raw operations than fault_k: not a verdict
+                break
             if not mm:
                 what = 'obs'
                 if sparse and ALIASES.get(a, a) not in ('Finish', 'CloseReopen', 'Init'):
